@@ -457,6 +457,20 @@ func (rs *RelationService) createTable(r *Relation, tableName string) error {
 
 	// check the catalog rows before storing the first one, so that a
 	// CREATE TABLE that fails leaves no half-created table behind
+	ptTuple := Tuple{
+		Relation: &pageTableSchema,
+		Vals: map[string]interface{}{
+			"table_name":  tableName,
+			"file_offset": int64(0),
+		},
+	}
+	ptBuf, err := ptTuple.Encode()
+	if err != nil {
+		return err
+	}
+	if err := checkRowSizeLimit(ptBuf.Bytes()); err != nil {
+		return err
+	}
 	for _, fd := range r.Fields {
 		tuple := Tuple{
 			Relation: &schemaTableSchema,
